@@ -27,7 +27,8 @@ def run_passes(rep, binary, passes, total_budget_s):
             if "por" in ps:
                 por = ps["por"]
             r = vlib.explore(binary, ps["harness"], ps.get("bound", -1), budget, cache=ps.get("cache", not por),
-                             dev_bound=ps.get("dev_bound", -1), cfg=ps.get("cfg"), nshards=ps.get("nshards"), por=por)
+                             dev_bound=ps.get("dev_bound", -1), cfg=ps.get("cfg"), nshards=ps.get("nshards"), por=por,
+                             max_exec_per_cfg=ps.get("max_exec_per_cfg", 0))
         except vlib.EngineError as e:
             rep.engine_errors.append(str(e))
             break
@@ -36,7 +37,10 @@ def run_passes(rep, binary, passes, total_budget_s):
              "executions": r["executions"], "executions_sleep_set_blocked": r.get("sleep_blocked", 0), "transitions": r["transitions"],
              "states": r["states"], "cache_hits": r.get("cache_hits", 0), "executions_cut_early_by_cache": r.get("cut_early", 0), "shard_mode": r.get("shard_mode"), "max_depth": r["max_depth"], "max_threads": r["max_threads"],
              "distinct_outcomes": r["n_outcomes"], "exhaustive": r["exhaustive"], "wall_s": round(r["wall_s"], 1),
-             "violating_executions": r["sig_counts"], "step_limited": r.get("step_limited", 0)}
+             "violating_executions": r["sig_counts"], "step_limited": r.get("step_limited", 0),
+             "configurations": r.get("configs"), "configurations_cut_at_execution_cap": r.get("configs_capped", 0)}
+        if ps.get("max_exec_per_cfg"):
+            s["execution_cap_per_configuration"] = ps["max_exec_per_cfg"]
         if not r["exhaustive"]:
             s["stop_reason"] = r.get("stop_reason")
             all_exh = False
